@@ -143,6 +143,8 @@ class Verifier(Engine):
                 # <constant dict>.get(key, default) with a symbolic key: one of the values or the default -- which one is
                 # left open (sound over-approximation); only class-valued dicts are supported
                 import inspect
+                if not fv.d:
+                    return args[1] if len(args) > 1 else VNONE      # empty constant dict: always the default
                 vals = list(fv.d.values())
                 if len(args) > 1:
                     d = args[1]
@@ -941,6 +943,9 @@ class Verifier(Engine):
         runs, leaving the block releases the resource.  Only managers that never swallow exceptions are modelled
         (files); __exit__ is assumed not to raise."""
         outs = []
+        cm = self.contextmanager_def(st, s)
+        if cm is not None:
+            return self.with_contextmanager(st, s, *cm)
         for it in s.items:
             v = self.ev.ev(st, it.context_expr)
             outs += self.split_pend(st)
@@ -949,6 +954,76 @@ class Verifier(Engine):
             if it.optional_vars is not None:
                 self.assign(st, it.optional_vars, v)
         return outs + self.exec_block(st, s.body)
+
+    def contextmanager_def(self, st, s):
+        """`with self.m(args):` where m is a @contextmanager generator method with a single top-level `yield`:
+        -> (def node, class, module, argument expressions), else None."""
+        if len(s.items) != 1 or s.items[0].optional_vars is not None:
+            return None
+        ce = s.items[0].context_expr
+        if not (isinstance(ce, ast.Call) and isinstance(ce.func, ast.Attribute) and isinstance(ce.func.value, ast.Name)
+                and ce.func.value.id == 'self' and self.clsname):
+            return None
+        recv = st.env.get('self')
+        cls = recv.cls if isinstance(recv, VRef) and recv.cls else self.clsname
+        q = classes.qualname(cls, ce.func.attr)
+        if q is None:
+            return None
+        try:
+            fn_node, mod, dcls = source.find_def(q)
+        except BindingError:
+            return None
+        decos = [getattr(d, 'id', getattr(d, 'attr', None)) for d in fn_node.decorator_list]
+        if 'contextmanager' not in decos:
+            return None
+        ys = [i for i, b in enumerate(fn_node.body) if isinstance(b, ast.Expr) and isinstance(b.value, ast.Yield)]
+        nested = sum(isinstance(n, (ast.Yield, ast.YieldFrom)) for n in ast.walk(fn_node))
+        if len(ys) != 1 or nested != 1 or ce.keywords:
+            raise OutOfSubset('context manager %s is not of the form <statements>; yield; <statements>' % q)
+        return fn_node, dcls, mod, ys[0], ce.args
+
+    def with_contextmanager(self, st, s, fn_node, cls, mod, yi, argexprs):
+        """Runs the manager's statements before its yield, the with-body, then the statements after the yield (on normal
+        exit of the body; a body that raises skips them, as a generator-based manager without try/finally does)."""
+        import importlib
+        args = [self.ev.ev(st, a) for a in argexprs]
+        outs = self.split_pend(st)
+        names = [a.arg for a in fn_node.args.args]
+        if len(args) != len(names) - 1:
+            raise OutOfSubset('context manager arguments')
+        saved_env, saved_cls, saved_mod = st.env, self.clsname, self.live_mod
+        menv = dict(zip(names, [st.env['self']] + args))
+
+        def run_part(state, stmts, env):
+            state.env = dict(env)
+            self.clsname, self.live_mod = cls, importlib.import_module(mod)
+            try:
+                return self.exec_block(state, stmts)
+            finally:
+                self.clsname, self.live_mod = saved_cls, saved_mod
+        res = []
+        for o in run_part(st, fn_node.body[:yi], menv):
+            if o.kind != 'ok':
+                if o.kind == 'exc':
+                    o.st.env = saved_env
+                    res.append(o)
+                    continue
+                raise OutOfSubset('context manager leaves before its yield')
+            menv2 = o.st.env
+            o.st.env = dict(saved_env)
+            for b in self.exec_block(o.st, s.body):
+                if b.kind == 'exc' or not fn_node.body[yi + 1:]:
+                    res.append(b)
+                    continue
+                benv = b.st.env
+                for f in run_part(b.st, fn_node.body[yi + 1:], menv2):
+                    if f.kind == 'ok':
+                        f.st.env = benv
+                        res.append(Outcome(b.kind, f.st, val=b.val, exc=b.exc, site=b.site))
+                    else:
+                        f.st.env = benv
+                        res.append(f)
+        return outs + res
 
     def st_Try(self, st, s):
         if s.finalbody:
